@@ -22,12 +22,20 @@ ASSUMPTIONS = [
     "pypi.ParseWheelName: strings.IndexFunc(tag, !unicode.IsDigit) is a parameter of the model of which the totality theorem assumes "
     "only that a returned index lies within the tag (C04_wheel_name_total); the correspondence runs the ASCII instance and skips "
     "build tags with non-ASCII bytes",
+    "schema.ParseResolve (Properties/C04_schema.v: C04_parse_resolve_total, C04_parse_resolve_sources_bound, "
+    "C04_parse_resolve_schema_total): the theorems hold for every strings.TrimSpace and every deptest.ParseString (both are "
+    "parameters of the model: any function, any accept/refuse answer); Graph.Canon, called last by ParseResolve, is outside these "
+    "statements (its model belongs to C13) and enters only the correspondence parseresolve_model, where the model is instantiated "
+    "with the Unicode TrimSpace model of Semver/Pep440Parse.v and the deptest.ParseString model of C19 (non-ASCII dep-type "
+    "prefixes whose acceptance decides the answer are skipped and counted)",
     "stack depth: recursion-depth bounds of the models are theorems; that Go's stack accommodates them is observed, not proved",
 ]
 MANIFEST = dict(
     category="proof",
     text=("Totality theorems (no Panic outcome, fuel suffices) for the modelled entry points — SemVer-family Parse and the further "
-          "parsers listed in Properties/C04*.v — over ALL byte strings, with the operator/byte tables regenerated from the source so "
+          "parsers listed in Properties/C04*.v — over ALL byte strings (among them the graph-text parser schema.ParseResolve: C04_parse_resolve_total, with the invariant "
+          "C04_parse_resolve_sources_bound that a validated row's depth is at most its index, which keeps the per-level scratch slice "
+          "indexed in range; model tied to the code by the correspondence parseresolve_model on whole canonical graphs), with the operator/byte tables regenerated from the source so "
           "that an index past a table's real length is a failed obligation; pypi.SdistVersion and pypi.ParseWheelName with what they return "
           "(C04_sdist_version_total/_ok/_err, C04_wheel_name_total/_ok, Properties/C04_pypifiles.v) and System.Difference for all nine "
           "systems (C04_difference_total/_maven/_family, _compare, _same, _numbers, Properties/C04_difference.v) compared value by value with Go; "
@@ -35,7 +43,7 @@ MANIFEST = dict(
           "the three resolvers) is additionally driven with malformed inputs under recover and a watchdog, and a panic or hang is "
           "reported with the input."),
     note=("Partial: standard-library decoders (net/mail, encoding/xml, archive/*), resolver totality and physical stack limits are "
-          "observed, not proved. Trusted: Coq kernel, gotables, extraction+driver, Go harness, generators."),
+          "observed, not proved; for schema.ParseResolve deptest.ParseString and strings.TrimSpace are parameters and Graph.Canon is left to C13. Trusted: Coq kernel, gotables, extraction+driver, Go harness, generators."),
     technique="Rocq totality theorems over models with explicit Panic outcomes + differential classification + malformed-input search",
     design="8 C04")
 
@@ -633,7 +641,52 @@ def confirm_hangs(ctx, cs, res):
         res[i] = r2
 
 
+def schema_model_cases(ctx):
+    """schema.ParseResolve against its model (Resolve/SchemaResolve.v composed with the Canon model of C13): the same
+    graph texts as the totality stream, plain, byte-mutated and with tree-art indentation, compared on the whole
+    canonical graph (nodes with their errors, edges with requirement and dependency type, free errors) or the refusal."""
+    rng = ctx.rng
+    args = []
+    for _ in range(ctx.scale(600, 20000)):
+        gt = graph_text(rng)
+        q = rng.random()
+        if q < 0.25:
+            gt = byte_mutate(rng, gt, 3)
+        elif q < 0.35:
+            # tree-art indentation in place of some tabs (replaceArt), and blanks around the lines (TrimSpace)
+            art = [b"   ", b"\xe2\x94\x9c\xe2\x94\x80 ", b"\xe2\x94\x82  ", b"\xe2\x94\x94\xe2\x94\x80 "]
+            rows = []
+            for ln in gt.split(b"\n"):
+                n = len(ln) - len(ln.lstrip(b"\t"))
+                ln = b"".join(rng.choice(art + [b"\t"]) for _ in range(n)) + ln[n:]
+                if rng.random() < 0.2:
+                    ln += rng.choice([b" ", b"\r", b"\xc2\xa0", b"\xe2\x80\xa8", b"\t"])
+                rows.append(ln)
+            gt = b"\n".join(rows)
+        elif q < 0.5:
+            # token soup: every separator the parser looks for, in any order
+            toks = [b"$", b"@", b": ", b" ERROR: ", b"ERROR:", b"|", b" ", b"\t", b"\n", b"\n", b"\n\t", b"a", b"x", b"1", b"#", b"   ",
+                    b"\xe2\x94\x9c\xe2\x94\x80 ", b"\xe2\x94\x82  ", b"dev", b"opt", b"\xc2\xa0", b":", b"x: ", b"$x@", b"a@1 1"]
+            gt = b"".join(rng.choice(toks) for _ in range(rng.randrange(1, 14)))
+        args.append(sx([rng.randrange(4), gt]))
+    # the nested label-reference / error rows of the seeded defect (scratch slice sized by the deepest node)
+    args.append(sx([1, b"a 1\n\tx: b@1 1\n\t\t$x@1\n\t\t\t$x@2"]))
+    args.append(sx([1, b"a 1\n\tb@1 ERROR: e\n\t\tc@1 ERROR: f\n\t\t\tc@2 ERROR: g"]))
+    impl, model = ctx.correspond("parseresolve_model", args)
+    for x, y in zip(impl, model):
+        if '"oom"' in y:
+            ctx.count("parseresolve_model:outside-model")
+        else:
+            ctx.count("parseresolve_model:" + ("accepted" if x.startswith('("ok"') else "rejected" if x.startswith('("err"') else "other"))
+
+
 def run(ctx):
+    run_entries(ctx)
+    # last, so that the streams above are the same as before this correspondence existed
+    schema_model_cases(ctx)
+
+
+def run_entries(ctx):
     cs = cases(ctx)
     res = run_total(ctx, cs)
     confirm_hangs(ctx, cs, res)
